@@ -132,7 +132,7 @@ def gen_cases(rng, tier):
                 dims = {}
                 for s, e in exp[2].items():
                     dims = RW.vmul(dims, RW.vpow(w.classes[w.units[s]['cls']]['dims'], e))
-                if RW.vkey(dims) not in w.by_dims and all(
+                if dims and RW.vkey(dims) not in w.by_dims and all(
                         w.classes[c]['ref'] for c in dims):
                     late = [{'d': 'cls', 'name': f"L{tag}", 'def': [[c, e] for c, e in sorted(dims.items())],
                              'ref': None, 'quantum': rng.choice([None, None, '1/8'])}]
